@@ -210,6 +210,7 @@ type Exec struct {
 	GlobalInit func(e *Exec, st *State, g *ssa.Global) (Val, bool)
 	preState   *State
 	forcedInt  bool
+	addrObjs   map[int]*Term // objects whose address has been taken as a uintptr (object id -> size in bytes)
 	deadCands  map[loopKey]map[string]bool
 	mergedJoin *ssa.BasicBlock
 	mergedIdx  int
